@@ -31,7 +31,7 @@ def run_case(case: Dict[str, Any]) -> CaseResult:
 def strategy(tier: str) -> Any:
     return sc.sched_case(tier=tier, modes=("ctl", "ctl", "free", "ctl-ex"), min_sites=3, max_sites=9, wide=True,
                          seq_rate=0.35, prio=(-2, 4), config_rate=0.15, max_mc=4, sel_rate=0.25,
-                         spawn_fail_rate=0.1)
+                         spawn_fail_rate=0.1, flag_rate=0.3)
 
 
 def run_shard(H: Harness) -> None:
